@@ -343,6 +343,12 @@ func script(seed int64, idx int) {
 		if rng.Intn(2) == 0 {
 			w.Sim.Mutate("advance", func(s *alphsim.Sim) { s.SetHeight(s.Height + int32(rng.Intn(4))) })
 		}
+		if rng.Intn(4) == 0 { // a request of the confirmation pass (or a page request) is slow: the watcher's goroutines overlap differently
+			kind := []string{"main-chain", "main-chain", "header", "page", "height"}[rng.Intn(5)]
+			w.Sim.SlowNext(kind, 1+rng.Intn(2), time.Duration(30+rng.Intn(90))*time.Millisecond)
+			w.Tr("the next " + kind + " request(s) are slow")
+			vlib.CCount("slow_requests_injected", 1)
+		}
 		if !w.H.WaitRounds(3, 30*time.Second) {
 			break // judged below from the request log
 		}
